@@ -2109,6 +2109,7 @@ def real_runtime_cases(ck, rng, n, tables, max_wait):
                     f'{max_wait} s')
                 return []
             compiler = None
+            aborted = False
             try:
                 for case, circuit, data in built:
                     # a failing task closes the attached Compiler (client drops
@@ -2116,7 +2117,19 @@ def real_runtime_cases(ck, rng, n, tables, max_wait):
                     if compiler is None or compiler.conn is None:
                         if compiler is not None:
                             compiler.close()
-                        compiler = Compiler(num_workers=2)
+                        compiler = None
+                        for attempt in range(6):
+                            # the port of a server that is still shutting down
+                            # (or of a runtime started without the lock) resets
+                            # the connection: wait and retry
+                            try:
+                                compiler = Compiler(num_workers=2)
+                                break
+                            except Exception:
+                                time.sleep(1.0 + attempt)
+                        if compiler is None:
+                            aborted = True
+                            break
                     case['tag'] = len(results)
                     wf = mk_tree(case['tree'], case)
                     try:
@@ -2175,7 +2188,10 @@ def real_runtime_cases(ck, rng, n, tables, max_wait):
             d = f'model {mo}, real {out}'
         if d:
             bad.append((case, d))
-    ck.coverage['real_runtime'] = f'{len(built)} cases through Compiler(num_workers=2)'
+    ck.coverage['real_runtime'] = (
+        f'{len(results)} cases through Compiler(num_workers=2)'
+        + (' (then the runtime could not be restarted: port busy)'
+           if len(results) < len(built) else ''))
     return bad
 
 
@@ -2193,6 +2209,15 @@ def run(ck):
         bq_random.find_library = functools.lru_cache(None)(bq_random.find_library)
     from translate import fields as tr_fields
     tables = tr_fields.main()
+    if ck.replay_path:
+        # a replay file records seed and tier; every case is derived from the
+        # seed, so re-running with them reproduces the recorded violation (the
+        # file's 'replay' entry holds the concrete failing input for reading)
+        body = json.loads(open(ck.replay_path).read())
+        ck.seed = int(body.get('seed', ck.seed))
+        ck.tier = body.get('tier', ck.tier)
+        ck.rng = random.Random(ck.seed * 1000003 + int(ck.pid[1:]))
+        print(f'replaying seed={ck.seed} tier={ck.tier}: {body.get("what", "")[:200]}')
     if os.environ.get('C11_SKIP_LEAN'):      # development only
         proved = True
     else:
